@@ -826,6 +826,14 @@ func (pconf *Path) validate(
 
 	// Always available
 
+	// tracks can also be filled field by field through environment variables
+	for i := range pconf.AlwaysAvailableTracks {
+		err = pconf.AlwaysAvailableTracks[i].validate()
+		if err != nil {
+			return fmt.Errorf("invalid 'alwaysAvailableTracks': %w", err)
+		}
+	}
+
 	if pconf.AlwaysAvailable {
 		if pconf.Regexp != nil {
 			return fmt.Errorf("'alwaysAvailable' cannot be used in a path with a regular expression (or path 'all_others')")
